@@ -195,7 +195,11 @@ func MannWhitneyUTest(x1, x2 []float64, alt LocationHypothesis) (*MannWhitneyUTe
 			p = dist.CDF(U1)
 
 		case LocationGreater:
-			p = 1 - dist.CDF(U1-1)
+			// Pr[U' >= U1]. U lies on the integer grid
+			// without ties and on the half-integer grid
+			// with ties, and CDF rounds down to the grid,
+			// so this is right in both cases.
+			p = 1 - dist.CDF(U1-0.5)
 		}
 	} else {
 		// Use normal approximation (with tie and continuity
